@@ -98,7 +98,8 @@ func (scb *SchemaClientBoundImpl) Retrieve(ctx context.Context, path *sdcpb.Path
 	})
 	entry.schemaRsp = schema
 	entry.err = err
-	entry.ready = true
+	// only a successful lookup is memoised, a (transient) failure of the schema server must not stick forever
+	entry.ready = err == nil
 
 	return entry.Get()
 }
